@@ -28,7 +28,7 @@ RoundComplete(h) ==
     \A b \in DOMAIN h.j : \A k \in Letters : ~RuleAllowsC(h, ctx, Entry(k, b, 0))
 Orderly(h, c) ==
     CASE c.op = "add" -> TRUE
-      [] c.op = "bar" -> DOMAIN h.j = BibS /\ (NH(h) = 0 \/ RoundComplete(h))
+      [] c.op = "bar" -> IF NH(h) = 0 THEN DOMAIN h.j = BibS ELSE RoundComplete(h)
       [] c.op = "-"   -> NRegR(h) = 0
       [] OTHER        -> TRUE
 
